@@ -181,7 +181,8 @@ class Ext:
 #   lambda_matrix = np.diag(diag)                   -> dim x dim symbolic matrix
 #   for i in range(dim): for j in range(i + 1, dim): x = levels_a[i], levels_a[j];
 #        lambda_matrix[i, j] = -marginal_tail_integral(indices=[i, j], x=x)
-#   theta = np.sum(lambda_matrix)                   -> row-major sum, zeros dropped (x + 0.0 = x exactly)
+#   theta = np.sum(lambda_matrix)                   -> row-major sum, zeros dropped (x + 0.0 = x exactly; numpy's pairwise
+#                                                      summation order is not modelled: exact only where + is associative, i.e. dyadic data)
 #   if dim == 3: theta -= self.levy_copula_model.tail_integrals(x=levels_a)
 #   return theta
 # --------------------------------------------------------------------------------------------
@@ -211,7 +212,7 @@ def unroll_theta(node: ast.FunctionDef, dim: int, names: dict) -> str:
         raise Unsupported(f"level expression {src(e)}")
 
     def add(t, u):
-        return u if t is None else f"(tadd {t} {u})"
+        return u if t is None else f"({names.get('add', 'tadd')} {t} {u})"
 
     def run(stmts):
         nonlocal theta
@@ -250,7 +251,7 @@ def unroll_theta(node: ast.FunctionDef, dim: int, names: dict) -> str:
                     if not (isinstance(ind, ast.List) and isinstance(xs, ast.Name) and env.get(xs.id, (None,))[0] == "xs"):
                         raise Unsupported(f"matrix entry arguments {src(c)}")
                     il = "; ".join(f"{_const_int(q, env)}%nat" for q in ind.elts)
-                    env[t.value.id][1][i][j] = f"(tneg ({names['UI']} (Some [{il}]) [{'; '.join(env[xs.id][1])}]))"
+                    env[t.value.id][1][i][j] = f"({names.get('neg', 'tneg')} ({names['UI']} (Some [{il}]) [{'; '.join(env[xs.id][1])}]))"
                     continue
                 if isinstance(t, ast.Name) and t.id == "theta" and isinstance(v, ast.Call) and src(v.func) == "np.sum" \
                         and len(v.args) == 1 and isinstance(v.args[0], ast.Name) and env.get(v.args[0].id, (None,))[0] == "mat":
@@ -263,7 +264,7 @@ def unroll_theta(node: ast.FunctionDef, dim: int, names: dict) -> str:
                 raise Unsupported(f"_theta: assignment {src(s)[:90]}")
             if isinstance(s, ast.AugAssign) and isinstance(s.target, ast.Name) and s.target.id == "theta" \
                     and isinstance(s.op, ast.Sub) and src(s.value) == "self.levy_copula_model.tail_integrals(x=levels_a)":
-                theta = f"(tsub {theta} ({names['UF']} [{'; '.join(A)}]))"
+                theta = f"({names.get('sub', 'tsub')} {theta} ({names['UF']} [{'; '.join(A)}]))"
                 continue
             if isinstance(s, ast.For) and isinstance(s.target, ast.Name) and not s.orelse and isinstance(s.iter, ast.Call) \
                     and src(s.iter.func) == "range" and 1 <= len(s.iter.args) <= 2:
@@ -302,3 +303,58 @@ def unroll_theta(node: ast.FunctionDef, dim: int, names: dict) -> str:
     for g in reversed(guards):
         body = f"if {g} then {names['terr']} else {body}"
     return body
+
+
+def emit_theta(tree, spec, fn) -> str:
+    """emitter for CFLevyModel._theta (dim 1) / CFLevyCopulaModel._theta (dim 2, 3): see unroll_theta."""
+    node = core.find_function(tree, fn["py"])
+    dim = fn["dim"]
+    names = fn["names"]
+    params = " ".join(f"(a{k + 1} : ext N)" for k in range(dim))
+    if dim == 1:
+        args = [a.arg for a in node.args.args if a.arg != "self"]
+        body = [s for s in node.body if not (isinstance(s, ast.Expr) and isinstance(s.value, ast.Constant))]
+        if args != ["level_a"] or len(body) != 2 or src(body[0]) != "theta = self.model.mass(*interval_I(level_a))" \
+                or src(body[1]) != "return theta":
+            raise Unsupported(f"{fn['py']}: body changed: {[src(s) for s in body]}")
+        term = f"({names['M1']} 0%nat a1)"
+    else:
+        term = unroll_theta(node, dim, names)
+    return f"Definition {fn['coq']} {params} : N :=\n  {term}.\n"
+
+
+def emit_spread_fun(tree, spec, fn) -> str:
+    """emitter for the objective of implied_cds_spread: the local assignments default_leg / fixed_leg and the
+    returned expression of the nested `fun(spread)`; everything else of that method (brentq, bracket) is not modelled.
+    theta and r become parameters (`theta = self._theta(..)`, `r = <model>.r` are checked to be present)."""
+    node = core.find_function(tree, fn["py"])
+    ctx = core.Ctx(spec, fn)
+    want = fn["expect"]          # exact source text of the statements that bind theta and r
+    stmts = [s for s in node.body if not (isinstance(s, ast.Expr) and isinstance(s.value, ast.Constant))]
+    texts = [src(s) for s in stmts]
+    for w in want:
+        if w not in texts:
+            raise Unsupported(f"{fn['py']}: expected statement `{w}` not found")
+    lets = []
+    inner = None
+    for s in stmts:
+        if isinstance(s, ast.Assign) and len(s.targets) == 1 and isinstance(s.targets[0], ast.Name) and s.targets[0].id in ("default_leg", "fixed_leg"):
+            lets.append((s.targets[0].id, core.expr(ctx, s.value)))
+        if isinstance(s, ast.FunctionDef) and s.name == "fun":
+            inner = s
+    if [n for n, _ in lets] != ["default_leg", "fixed_leg"] or inner is None:
+        raise Unsupported(f"{fn['py']}: default_leg / fixed_leg / fun not found in the expected order")
+    if [a.arg for a in inner.args.args] != ["spread"] or len(inner.body) != 1 or not isinstance(inner.body[0], ast.Return):
+        raise Unsupported(f"{fn['py']}: objective function changed")
+    uses = [n for n in texts if n.startswith("res = ")]
+    if uses != ["res = scipy.optimize.brentq(f=fun, a=a, b=b)"] or texts[-1] != "return res":
+        raise Unsupported(f"{fn['py']}: the root search changed: {uses}")
+    ret = core.expr(ctx, inner.body[0].value)
+    params = " ".join(f"({n} : {t})" for n, t in fn["args"])
+    body = "".join(f"let {n} := {t} in\n  " for n, t in lets) + ret
+    out = f"Definition {fn['coq']} {params} : {fn['ret']} :=\n  {body}.\n"
+    for n, t in lets:   # the two legs as separate definitions (same terms)
+        pre = "".join(f"let {m} := {u} in\n  " for m, u in lets if m != n and False)
+        leg_params = " ".join(f"({a} : {ty})" for a, ty in fn["args"] if a not in ("spread", "pv"))
+        out += f"\nDefinition {fn['coq']}_{n} {leg_params} : {fn['ret']} :=\n  {t}.\n"
+    return out
